@@ -166,7 +166,8 @@ func (n *ThreadedNewsYAML) PostArticle(newsPath []string, parentArticleID uint32
 	if parentID != 0 {
 		parentArt := cat.Articles[parentID]
 
-		if parentArt.FirstChildArt == [4]byte{0, 0, 0, 0} {
+		// The parent may have been deleted in the meantime: the reply is kept and records the parent it was written to.
+		if parentArt != nil && parentArt.FirstChildArt == [4]byte{0, 0, 0, 0} {
 			binary.BigEndian.PutUint32(parentArt.FirstChildArt[:], nextID)
 		}
 	}
